@@ -855,6 +855,8 @@ def show(t, names=None):
         return "discr(%s)" % show(t[1], names)
     if k == "is":
         return "is(%s, %s)" % (show(t[1], names), t[2])
+    if k in ("phi", "rec") and ("phikey", t[1]) in names:
+        return names[("phikey", t[1])]
     if k == "phi":
         return "φ%s{%s}" % (("_%d" % t[1][1]) if isinstance(t[1], tuple) and len(t[1]) == 2 and isinstance(t[1][1], int) else "", " | ".join(show(v, names) for v in t[2]))
     if k == "rec":
